@@ -406,6 +406,57 @@ def name_compare_vectors(chk):
     chk.floor('name comparison vectors', n, 16)
 
 
+def calendar_table(chk):
+    """Validity dates are turned into a day count with a month table (proleptic Gregorian calendar): for month m of a normal / leap
+    year the 16-bit entry is (days before the month << 5) | days in the month.  The reference table is generated from the calendar,
+    and must be the 48 bytes at the address the date reader (the word applying data-get16) indexes."""
+    R = 'x509-calendar-table'
+    ref = []
+    for leap in (0, 1):
+        cum = 0
+        for dim in (31, 28 + leap, 31, 30, 31, 30, 31, 31, 30, 31, 30, 31):
+            v = (cum << 5) | dim
+            ref += [v >> 8, v & 0xFF]
+            cum += dim
+    n = 0
+    for key in ('x509_minimal', 'x509_decoder'):
+        P = t0.Program(key)
+        # data-get16 is itself an interpreted word: two data-get8 combined big-endian
+        g16 = [w for w in P.words_calling_native('data-get8')
+               if sum(1 for i in P.words[w].ins.values() if i.kind == 'native' and i.name == 'data-get8') == 2
+               and any(i.kind == 'const' and i.arg == 8 for i in P.words[w].ins.values())]
+        ws = sorted(set(c for g in g16 for c in P.words_calling_word(g)))
+        if not ws:
+            raise AnalysisBroken('%s: no word uses data-get16 (date reader vanished)' % key)
+        for w in ws:
+            cands = set()
+            for i in P.words[w].ins.values():
+                if i.kind == 'const':
+                    cands.add(i.arg)
+                elif i.kind == 'call':
+                    v = P.const_word_value(i.arg)
+                    if v is not None:
+                        cands.add(v)
+            cands = sorted(a for a in cands if 0 <= a and a + 48 <= len(P.data))
+            n += 1
+            inst = '%s W%d (date reader): the month table it indexes is the Gregorian one (normal and leap year)' % (key, w)
+            hit = [a for a in cands if P.data[a:a + 48] == ref]
+            if hit:
+                chk.ok(R, inst, P.src, 'data block offset %d' % hit[0])
+            else:
+                best = None
+                for a in cands:
+                    d = [k // 2 for k in range(0, 48, 2) if P.data[a + k:a + k + 2] != ref[k:k + 2]]
+                    if best is None or len(d) < len(best[1]):
+                        best = (a, d)
+                det = 'no data-block address used by the word holds the reference table'
+                if best and len(best[1]) <= 6:
+                    mn = ['%s of a %s year' % (('Jan Feb Mar Apr May Jun Jul Aug Sep Oct Nov Dec').split()[k % 12], 'leap' if k >= 12 else 'normal') for k in best[1]]
+                    det = 'table at data offset %d differs from the calendar for %s' % (best[0], ', '.join(mn))
+                chk.violation(R, inst, P.src, det, key='%s %s' % (R, key))
+    chk.floor('date readers', n, 2)
+
+
 def err_writers(chk):
     """C stores to err: validation success (BR_ERR_X509_OK) is written only by the two trust natives"""
     u = build.load_unit(S)
@@ -454,6 +505,7 @@ def run(tier):
     t0_rules(chk)
     key_usage_masks(chk)
     name_compare_vectors(chk)
+    calendar_table(chk)
     from .c03 import hash_compare_shape
     hash_compare_shape(chk, S, 'verify_signature', 'x509-signature-hash-compare')
     chk.floor('rule instances', len(chk.obls), 35)
